@@ -651,6 +651,12 @@ class Reach:
         if isinstance(expr, ast.Name) and expr.id in caller.params() and expr.id not in getattr(caller, "_reassigned", set()):
             v = self.values.get((caller.qual, expr.id))
             if v:
+                # narrow by the guards under which this very expression is evaluated
+                gs = [g for g in guards_of(caller, expr, self.r) if g.param == expr.id]
+                if gs:
+                    nv = {x for x in v if all(guard_satisfiable(g, {x}) for g in gs)}
+                    if nv:
+                        return nv
                 return set(v)
         alts = self.r.expr_alts(caller, expr)
         return set(alts) if alts else {("any", "")}
